@@ -23,6 +23,13 @@ packet, one loop iteration, and `_enforce_strict_kex` / the expected-packet test
 sequence number. -/
 theorem read_message_delivers_every_packet : Generated.C12.readMessageDeliversEveryPacket = true := by decide
 
+/-- **Every packet read during the handshake is judged** (AST of the loop body of `Transport.run`, read on every run):
+between `packetizer.read_message()` and the expected-packet test the only ways to `continue` are the IGNORE and DEBUG
+branches, which call `_enforce_strict_kex` first — as in the model's `body`, where every received packet either passes
+`enforceStrict` or reaches `afterExpected`.  No flag (a "guessed kex packet follows", say) can make the loop drop a
+packet unjudged. -/
+theorem run_judges_every_packet : Generated.C12.runJudgesEveryPacket = true := by decide
+
 /-- every paramiko kex engine, in both roles, arms a non-empty set of kex-range types at each step -/
 theorem engines_wf (k : KexKind) (server : Bool) : (engineOf k server).WF := by
   cases k <;> cases server <;> simp [Engine.WF, EStep.WF, engineOf, Engine.script]
